@@ -171,7 +171,7 @@ impl WorkerPool {
 
     /// Shutdown the worker pool by closing all channels
     pub fn shutdown(&self) {
-        self.shutdown_flag.store(true, Ordering::Relaxed);
+        self.shutdown_flag.store(true, Ordering::Release);
         if let Ok(mut sender) = self.result_sender.lock() {
             *sender = None;
         }
@@ -249,7 +249,7 @@ impl WorkerPool {
         let timeout = Duration::from_millis(config.timeout_ms);
 
         loop {
-            if shutdown_flag.load(Ordering::Relaxed) {
+            if shutdown_flag.load(Ordering::Acquire) && rx.is_empty() {
                 debug!("TLS worker {} received shutdown signal", worker_id);
                 break;
             }
@@ -258,7 +258,7 @@ impl WorkerPool {
             let first_packet = match rx.recv_timeout(timeout) {
                 Ok(packet) => packet,
                 Err(RecvTimeoutError::Timeout) => {
-                    if shutdown_flag.load(Ordering::Relaxed) {
+                    if shutdown_flag.load(Ordering::Acquire) && rx.is_empty() {
                         break;
                     }
                     batch.clear();
